@@ -1305,6 +1305,9 @@ func (st *State) uncoveredHavocs(mods []string) []string {
 			continue
 		}
 		for _, p := range ev.Patterns {
+			if strings.HasPrefix(p, "UB:") {
+				continue // mirrors of engine-side update builders, not program state
+			}
 			if !covered(p) {
 				out = append(out, p)
 			}
